@@ -22,6 +22,7 @@ class Hooks:
         self.point = lambda label, obj=None: None      # yield / cancel points
         self.io = None                                  # IoPlan or None
         self.crash = lambda site: _real_os._exit(137)   # injected process death (kill -9 / power loss) at a seam
+        self.sys = None                                 # callable(name, args) at every os-level call made for library code
 
 
 HOOKS = Hooks()
@@ -94,6 +95,36 @@ class IoPlan:
             if f["site"] == site:
                 return self.faults.pop(i)
         return None
+
+    # {"site": "sys", "at": k, "kind": "peer_dump", "target": <abs dir>}: just BEFORE the k-th os-level call this
+    # operation makes for library code, a concurrent peer (another sdp process, another thread) dumps another input into
+    # the same target directory, creating it with its parents.  Not an error condition: the operation is judged strictly.
+    sys_n = 0
+
+    def on_sys(self, name, args):
+        self.sys_n += 1
+        for i, f in enumerate(self.faults):
+            if f["site"] == "sys" and int(f["at"]) == self.sys_n:
+                self.faults.pop(i)
+                created = []
+                tgt = f["target"]
+                p = tgt
+                missing = []
+                while p and not _real_os.path.isdir(p):
+                    missing.append(p)
+                    p = _real_os.path.dirname(p)
+                try:
+                    _real_os.makedirs(tgt, exist_ok=True)
+                    created += [m + "/" for m in missing]
+                    peer = _real_os.path.join(tgt, "peer_schema.json")
+                    if not _real_os.path.exists(peer):
+                        created.append(peer)
+                    with builtins.open(peer, "w") as fh:
+                        fh.write("[]")
+                except OSError:
+                    pass        # the target path is occupied by a file (environment fault): the peer fails on its own
+                self.fired.append({"site": "sys", "kind": "peer_dump", "at": self.sys_n, "before_call": name, "created": created})
+                return
 
 
 def _oserror(kind, path):
@@ -223,6 +254,54 @@ def install_file_seams():
     if hasattr(CLI, "os"):
         CLI.os = _OsProxy("cli")
     _installed["files"] = True
+
+
+_SYS_NAMES = ("stat", "lstat", "mkdir", "replace", "rename", "unlink", "remove", "rmdir", "listdir", "scandir")
+_sys_busy = __import__("threading").local()
+
+
+def install_syscall_seam(prefix):
+    """os.stat / mkdir / replace / ... and io.open themselves (below os.path, os.makedirs and pathlib, which look them up
+    at call time): when the call is made on behalf of library code (a frame of `prefix` within eight frames, no logging or
+    import machinery in between) HOOKS.sys(name, args) runs first - a scheduling point for the thread scheduler, or the
+    instant at which a concurrent peer acts."""
+    if "sys" in _installed:
+        return
+    import io
+
+    def for_library():
+        f = sys._getframe(2)
+        n = 0
+        while f is not None and n < 8:
+            fn = f.f_code.co_filename
+            if fn.startswith(prefix):
+                return True
+            if "/logging/" in fn or "importlib" in fn or "linecache" in fn or "traceback" in fn:
+                return False
+            f = f.f_back
+            n += 1
+        return False
+
+    def wrap(real, name):
+        def w(*a, **kw):
+            h = HOOKS.sys
+            if h is not None and not getattr(_sys_busy, "v", False) and for_library():
+                _sys_busy.v = True
+                try:
+                    h(name, a)
+                finally:
+                    _sys_busy.v = False
+            return real(*a, **kw)
+        w.__name__ = getattr(real, "__name__", name)
+        w.__wrapped__ = real
+        return w
+
+    for n in _SYS_NAMES:
+        setattr(_real_os, n, wrap(getattr(_real_os, n), n))
+    opened = wrap(io.open, "open")
+    io.open = opened
+    builtins.open = opened
+    _installed["sys"] = True
 
 
 def install_table_seam():
